@@ -32,6 +32,25 @@ TGranted == /\ Ev("granted")
                   /\ readers' = readers \cup {C} /\ st' = [st EXCEPT ![C] = "ro"] /\ snap' = [snap EXCEPT ![C] = db]
                   /\ UNCHANGED <<db, writer, pendW, buf, nw, cok, gaveup, abandoned, ntx>>
             /\ UNCHANGED intent
+\* grants and releases that happen in goroutines the harness cannot attribute (the registry's begin goroutine, its cleanup
+\* paths) are logged with c = "?": TLC has to find a client for which the step is possible
+TGrantedAny == /\ Ev("granted?")
+               /\ \E c \in Clients :
+                    \/ GrantW(c)
+                    \/ /\ st[c] = "waitR" /\ writer = NoOne
+                       /\ readers' = readers \cup {c} /\ st' = [st EXCEPT ![c] = "ro"] /\ snap' = [snap EXCEPT ![c] = db]
+                       /\ UNCHANGED <<db, writer, pendW, buf, nw, cok, gaveup, abandoned, ntx>>
+               /\ UNCHANGED intent
+\* the registry rolls back a transaction nobody will finish: the late grant of a timed-out begin, an abandoned transaction
+TReapAny == /\ Ev("unlocking?")
+            /\ \E c \in Clients :
+                 /\ (c \in gaveup \/ c \in abandoned) /\ st[c] \in {"ro", "rw"} /\ Holding(c)
+                 /\ readers' = readers \ {c} /\ writer' = IF writer = c THEN NoOne ELSE writer
+                 /\ st' = [st EXCEPT ![c] = "idle"] /\ buf' = [buf EXCEPT ![c] = EmptyBuf]
+                 /\ gaveup' = gaveup \ {c} /\ abandoned' = abandoned \ {c}
+            /\ UNCHANGED <<db, pendW, nw, snap, cok, ntx, intent>>
+TAbandon == Ev("abandon") /\ Abandon(C) /\ UNCHANGED intent
+TBTimeout == Ev("btimeout") /\ BeginTimeout(C) /\ UNCHANGED intent
 TWrite == Ev("write") /\ TxWrite(C, Trace[l].k, Trace[l].v) /\ UNCHANGED intent
 \* C04: a read inside a transaction returns the storage state it began with plus its own writes
 TGet == /\ Ev("get") /\ st[C] \in {"ro", "rw"}
@@ -77,7 +96,7 @@ TFinal == /\ Ev("final") /\ Quiescent
           /\ UNCHANGED <<vars, intent>>
 
 TNext == TReset \/ TBReq \/ TGranted \/ TWrite \/ TGet \/ TScan \/ TCStart \/ TRStart \/ TAStart \/ TApplied
-         \/ TUnlocking \/ TCRet \/ TRRet \/ TAgain \/ TDGet \/ TBlocked \/ TFinal
+         \/ TUnlocking \/ TGrantedAny \/ TReapAny \/ TAbandon \/ TBTimeout \/ TCRet \/ TRRet \/ TAgain \/ TDGet \/ TBlocked \/ TFinal
 TSpec == TInit /\ [][TNext]_tvars
 
 HighWater == IF l > TLCGet(1) THEN TLCSet(1, l) ELSE TRUE
